@@ -173,5 +173,35 @@ int main(int argc, char **argv) {
             ctx.done_case();
         }
     }
+
+    // ---- TGLF with EXTERNAL ids and nodes added after reading: Graph::writeTglf(true) must give every node a distinct id.  The ids of the added
+    // (id-less) nodes are derived from internal ids, which are compared with the largest external id -- so the whole neighbourhood of that
+    // comparison is enumerated: delta = (internal id of the first added node) - (largest external id) in -2..2 (external ids chosen accordingly)
+    ctx.phase("TGLF with external ids, 1-2 nodes added after reading, written with useExternalIds: delta(internal id of first added node - largest external id) in -2..2");
+    for (int n = 1; n <= 3; n++) for (int delta = -2; delta <= 2; delta++) for (int nadd = 1; nadd <= 2; nadd++) for (int link = 0; link < 3; link++) {
+        if (!ctx.next()) continue;
+        Node_SP probe = Node::allocate(); long P = (long)probe->id() + 1, maxExt = P + n - delta;
+        if (maxExt - (n - 1) < 0) { ctx.done_case(); continue; }
+        ostringstream t; for (int i = 0; i < n; i++) t << (maxExt - (n - 1 - i)) << " " << 40 * i << " " << 15 * i << " " << (20 + 5 * i) << " 20\n"; t << "#\n"; for (int i = 0; i + 1 < n; i++) t << (maxExt - (n - 1 - i)) << " " << (maxExt - (n - 2 - i)) << "\n";
+        string desc = mcx::fmt("n=%d external ids %ld..%ld, %d node(s) added, link#%d, delta=%d", n, maxExt - (n - 1), maxExt, nadd, link, delta);
+        ctx.sample(desc, 1); ctx.count("states"); ctx.count("transitions", 2); ctx.count("evaluations"); ctx.count("nontrivial");
+        try {
+            string ts = t.str(); Graph_SP H = buildGraphFromTglf(ts); vector<Node_SP> old; for (auto &p : H->getNodeLookup()) old.push_back(p.second);
+            vector<Node_SP> added; for (int a = 0; a < nadd; a++) added.push_back(H->addNode(200 + 40 * a, 100, 25, 25));
+            if ((long)added[0]->id() - maxExt != delta) ctx.count("id_prediction_off");
+            if (link >= 1) H->addEdge(added[0], old.back()); if (link == 2) H->getSepMatrix().addSep(old.back()->id(), added[0]->id(), GapType::BDRY, SepDir::DOWN, SepType::INEQ, 5);
+            string w = H->writeTglf(true);
+            // every node line must carry a distinct id
+            { istringstream is(w); string line; set<string> ids; bool dup = false; while (getline(is, line) && line != "#") { string id = line.substr(0, line.find(' ')); if (!ids.insert(id).second) dup = true; } if (dup) { ctx.violation("tglf_duplicate_node_id", {}, desc, w); ctx.done_case(); continue; } }
+            Graph_SP K = buildGraphFromTglf(w);
+            if (K->getNumNodes() != H->getNumNodes() || K->getNumEdges() != H->getNumEdges()) ctx.violation("tglf_loses_objects", {}, desc, w);
+            else { // compare by geometry: every node of H has a node of K with the same centre and size, and edges join the same geometric pairs
+                auto keyOf = [](Node_SP u) { auto c = u->getCentre(); auto d = u->getDimensions(); return mcx::fmt("%.3f,%.3f,%.3f,%.3f", c.x, c.y, d.first, d.second); };
+                multiset<string> a, b; for (auto &p : H->getNodeLookup()) a.insert(keyOf(p.second)); for (auto &p : K->getNodeLookup()) b.insert(keyOf(p.second)); if (a != b) ctx.violation("tglf_geometry", {}, desc, w);
+                multiset<string> ea, eb; for (auto &p : H->getEdgeLookup()) { string x = keyOf(p.second->getSourceEnd()), y = keyOf(p.second->getTargetEnd()); ea.insert(min(x, y) + "|" + max(x, y)); } for (auto &p : K->getEdgeLookup()) { string x = keyOf(p.second->getSourceEnd()), y = keyOf(p.second->getTargetEnd()); eb.insert(min(x, y) + "|" + max(x, y)); }
+                if (ea != eb) ctx.violation("tglf_edge_ends_changed", {}, desc, w); }
+        } catch (std::exception &ex) { ctx.violation("tglf_exception", {}, desc, ex.what()); }
+        ctx.done_case();
+    }
     return ctx.finish();
 }
